@@ -32,7 +32,9 @@ def run_one(prop, patch, tier='quick'):
         shutil.rmtree(scratch, ignore_errors=True)
         # build cache of the scratch tree
         import hashlib
-        shutil.rmtree(os.path.join(VERIF, '.build', 'alt-' + hashlib.sha256(scratch.encode()).hexdigest()[:10]), ignore_errors=True)
+        h = hashlib.sha256(scratch.encode()).hexdigest()[:10]
+        shutil.rmtree(os.path.join(VERIF, '.build', 'alt-' + h), ignore_errors=True)
+        shutil.rmtree(os.path.join(VERIF, 'replays', 'alt-' + h), ignore_errors=True)
 
 def main():
     args = [a for a in sys.argv[1:] if not a.startswith('--')]
